@@ -213,6 +213,12 @@ def case_axis(ctx, shape):
                 goal = z3.BoolVal(False)
             else:
                 goal = all_eq(full, loop)
+            if axis in (0, None):
+                with npx.symbolic(ac):
+                    again = f(cn2, h, lam, axis=axis) if axis is not None else f(cn2, h, lam)
+                ctx.prove("%s axis=%s: a second call with the same arrays returns the same numbers" % (fn, axis), pre,
+                          all_eq(again, full) if numpy.shape(again) == numpy.shape(full) else z3.BoolVal(False), timeout_ms=60000,
+                          replay=lambda m, fn=fn, axis=axis: _replay_again(fn, m(cn2), m(h), m(lam), axis), witness_terms=dict(lam=lam))
             ctx.prove("%s axis=%s equals the loop over profiles" % (fn, axis), pre, goal, timeout_ms=60000,
                       replay=lambda m, fn=fn, axis=axis: _replay_axis(fn, m(cn2), m(h), m(lam), axis),
                       witness_terms=dict(lam=lam))
@@ -233,6 +239,17 @@ def _replay_axis(fn, cn2, h, lam, axis):
     bad = numpy.shape(full) != loop.shape or _rel(full, loop) > 1e-9
     return bad, dict(what="%s(axis=%s) differs from looping over profiles" % (fn, axis), cn2=cn2, h=h, lam=lam,
                      got=numpy.asarray(full), want=loop)
+
+
+def _replay_again(fn, cn2, h, lam, axis):
+    ac, _ = _mods()
+    f = getattr(ac, fn)
+    cn2 = numpy.abs(numpy.asarray(cn2, dtype=float)) + 1e-3
+    h = numpy.abs(numpy.asarray(h, dtype=float)) + 1e-3
+    kw = {} if axis is None else dict(axis=axis)
+    a = numpy.array(f(cn2, h, lam, **kw))
+    b = numpy.array(f(cn2, h, lam, **kw))
+    return bool(numpy.shape(a) != numpy.shape(b) or _rel(b, a) > 1e-12), dict(what="%s: second call with the same arrays differs" % fn, first=a, second=b)
 
 
 def _exp_axioms(terms):
